@@ -610,10 +610,75 @@ func bits(ty types.Type) int64 {
 	return 64
 }
 
+// constInt: the value of an integer constant operand
+func constInt(v ssa.Value) (int64, bool) {
+	k, ok := v.(*ssa.Const)
+	if !ok || k.Value == nil || !isInt(k.Type()) {
+		return 0, false
+	}
+	n, exact := constant.Int64Val(constant.ToInt(k.Value))
+	return n, exact
+}
+
+func log2(n int64) int64 {
+	for k := int64(0); k < 63; k++ {
+		if n == 1<<uint(k) {
+			return k
+		}
+	}
+	return -1
+}
+
+func maxOf(ty types.Type) int64 {
+	if isBigInt(ty) {
+		return math.MaxInt64
+	}
+	if isUnsigned(ty) {
+		if bits(ty) == 64 {
+			return math.MaxInt64
+		}
+		return 1<<uint(bits(ty)) - 1
+	}
+	return 1<<uint(bits(ty)-1) - 1
+}
+
 func (c *ctx) binop(s *state, b *ssa.BinOp) string {
 	x, y := c.val(s, b.X), c.val(s, b.Y)
 	ty := b.X.Type()
 	fl := tyCode0(ty)
+	// spellings of one operation are brought to one form, so that a harmless respelling in the source leaves the
+	// generated definition unchanged: unsigned `% 2^k` is `& (2^k-1)`, unsigned `/ 2^k` and `* 2^k` are shifts,
+	// `x <= c` is `x < c+1` and `x > c` is `c+1 <= x` for integer constants
+	if isInt(ty) && isUnsigned(ty) && !isBigInt(ty) {
+		if n, ok := constInt(b.Y); ok && n > 1 && log2(n) > 0 && log2(n) < bits(ty) {
+			switch b.Op {
+			case token.REM:
+				return fmt.Sprintf("(%s &&& (%d : %s))", x.expr, n-1, c.t.leanType(ty))
+			case token.QUO:
+				return fmt.Sprintf("(%s >>> (%d : %s))", x.expr, log2(n), c.t.leanType(ty))
+			case token.MUL:
+				return fmt.Sprintf("(%s <<< (%d : %s))", x.expr, log2(n), c.t.leanType(ty))
+			}
+		}
+	}
+	if isInt(ty) {
+		if n, ok := constInt(b.Y); ok && n < maxOf(ty) {
+			switch b.Op {
+			case token.LEQ:
+				return fmt.Sprintf("(decide (%s < (%d : %s)))", x.expr, n+1, c.t.leanType(ty))
+			case token.GTR:
+				return fmt.Sprintf("(decide ((%d : %s) ≤ %s))", n+1, c.t.leanType(ty), x.expr)
+			}
+		}
+		if n, ok := constInt(b.X); ok && n < maxOf(ty) {
+			switch b.Op {
+			case token.LSS: // c < y
+				return fmt.Sprintf("(decide ((%d : %s) ≤ %s))", n+1, c.t.leanType(ty), y.expr)
+			case token.GEQ: // c >= y
+				return fmt.Sprintf("(decide (%s < (%d : %s)))", y.expr, n+1, c.t.leanType(ty))
+			}
+		}
+	}
 	switch b.Op {
 	case token.ADD, token.SUB, token.MUL:
 		return fmt.Sprintf("(%s %s %s)", x.expr, b.Op, y.expr)
@@ -1427,12 +1492,21 @@ func (c *ctx) blockFrom(s *state, b *ssa.BasicBlock, from *ssa.BasicBlock, onPat
 	for _, in := range b.Instrs[len(phis):] {
 		switch x := in.(type) {
 		case *ssa.If:
-			cond := c.val(s, x.Cond)
+			// `if !c { A } else { B }` is `if c { B } else { A }`
+			condV, thenB, elseB := x.Cond, b.Succs[0], b.Succs[1]
+			for {
+				u, ok := condV.(*ssa.UnOp)
+				if !ok || u.Op != token.NOT {
+					break
+				}
+				condV, thenB, elseB = u.X, elseB, thenB
+			}
+			cond := c.val(s, condV)
 			s2 := s.clone()
 			fmt.Fprintf(&c.out, "%sif %s then\n", ind(d), cond.expr)
-			c.block(s, b.Succs[0], b, onPath, d+1)
+			c.block(s, thenB, b, onPath, d+1)
 			fmt.Fprintf(&c.out, "%selse\n", ind(d))
-			c.block(s2, b.Succs[1], b, onPath, d+1)
+			c.block(s2, elseB, b, onPath, d+1)
 			return
 		case *ssa.Jump:
 			c.block(s, b.Succs[0], b, onPath, d)
